@@ -348,6 +348,12 @@ func sampleCall(rng *rand.Rand, mode Mode) Call {
 		case 13:
 			c.Fault = &Fault{Kind: []string{"dup", "replay"}[rng.Intn(2)]}
 		}
+		if c.Op == "echoForm" && rng.Intn(4) == 0 {
+			c.Fault = &Fault{Kind: []string{"drop-field", "drop-field", "dup-field"}[rng.Intn(3)], Arg: []string{"name", "age", "nick", "langs"}[rng.Intn(4)]}
+		}
+		if c.Op == "echoMultipart" && rng.Intn(4) == 0 {
+			c.Fault = &Fault{Kind: []string{"drop-field", "drop-field", "dup-field"}[rng.Intn(3)], Arg: []string{"name", "count", "file", "extra"}[rng.Intn(4)]}
+		}
 		if (c.Op == "echoJSON" || c.Op == "echoJSONStream" || c.Op == "variants" || c.Op == "echoShapes") && rng.Intn(8) == 0 {
 			// a re-framing intermediary appends to the body: trailing data after a complete JSON document
 			c.Fault = &Fault{Kind: "append", Arg: []string{"}", "]", ",", "\x00", "\ngarbage", "{}", " null", "1", "\"x\"", " \n\t ", "\n", "}}", ":", "x"}[rng.Intn(14)]}
@@ -615,6 +621,14 @@ func oracleC15(r *CallRecord) []problem {
 			// multipart closing delimiter), the complete request; never partial data
 			if !(s.HandlerCalls == 0 && s.Status == 400) && !(s.HandlerCalls == 1 && s.ServerSaw == r.ExpectServerSaw && r.Call.Invalid == "") {
 				add("a body cut or broken in flight is answered 400 and never reaches the handler with partial data", fmt.Sprintf("delivery %d: status %d, handler calls %d, handler saw %s", i, s.Status, s.HandlerCalls, clip(s.ServerSaw, 160)))
+			}
+		case k == "drop-field" && r.Call.Invalid == "" && (r.Call.Op == "echoForm" || r.Call.Op == "echoMultipart"):
+			required := r.Call.Fault.Arg == "name" || r.Call.Fault.Arg == "file"
+			if required && (s.HandlerCalls != 0 || s.Status != 400) {
+				add("a lost required field is answered 400 and never reaches the handler", fmt.Sprintf("delivery %d: field %q lost: status %d, handler calls %d, handler saw %s", i, r.Call.Fault.Arg, s.Status, s.HandlerCalls, clip(s.ServerSaw, 160)))
+			}
+			if !required && (s.HandlerCalls != 1 || s.Status != 200) {
+				add("a lost optional field does not make the request unacceptable", fmt.Sprintf("delivery %d: field %q lost: status %d, handler calls %d", i, r.Call.Fault.Arg, s.Status, s.HandlerCalls))
 			}
 		case k == "append" && jsonish && r.Call.Invalid == "":
 			if strings.TrimSpace(r.Call.Fault.Arg) == "" {
